@@ -72,6 +72,10 @@ CLAIMED["C04"] = ("model_checking", "5 C04",
     "The real Screen.draw_screen runs two-frame histories (optionally clear() / resize between) on canvases whose cells are symbolic bytes with solver-chosen attribute and "
     "charset runs and cursor; the written tokens are interpreted by an independent terminal model and every cell, the cursor and the no-scroll condition are discharged per path.",
     "z3 trusted; screens up to 3x2 (quick) / 4x2, 3x3; models/term.py is part of the trusted base; HTML back-end, wide characters and partial-screen mode outside.")
+CLAIMED["C02"] = ("model_checking", "5 C02",
+    "Operation trees over combine, join, overlay, pad/trim on every side, trim, trim_end and attribute remapping are executed on the real canvas classes with abstract leaves "
+    "and unbounded symbolic widths/offsets; for a symbolic column the located cell (leaf, coordinates, attribute map) is shown equal to the reference grid semantics of models/grid.py.",
+    "z3 trusted; rows 1..3; trees of depth <= 2 (quick) / 3; TextCanvas byte-level trimming and content_delta outside; models/grid.py is part of the trusted base.")
 NOT_YET = {}
 TECH = "bounded symbolic execution of the real urwid code (AST-lifted import of /repo) with z3 deciding every path obligation; counterexamples replayed on the un-lifted code"
 def main():
